@@ -20,6 +20,7 @@ type obs struct {
 	Attempted int    // appends tried after open 1
 	Repair    string // none | wal | wbl | chunks (+ combinations joined by "+"), from the log messages of open 1
 	C1        []smp  // contents after open 1
+	First     []smp  // the out-of-order samples appended first after open 1 (part of Added)
 	Added     []smp  // samples acknowledged after open 1
 	C1b       []smp  // contents after the appends
 	Open2Err  string
@@ -95,6 +96,21 @@ func run(m *master, d damage, root string) (o obs) {
 	// out-of-order sample per series when the window allows it
 	t := m.maxT
 	v := m.nextV
+	// first an out-of-order sample for every known series (older than its newest sample, inside
+	// the window), before anything else is appended
+	if m.opts.OOOWindow > 0 {
+		var in []smp
+		for s := 0; s < m.active; s++ {
+			tt := m.maxT - 17 - int64(s)
+			if tt > 0 && !m.used[[2]int64{int64(s), tt}] {
+				in = append(in, smp{s, tt, v})
+				v++
+			}
+		}
+		o.Attempted += len(in)
+		o.First = tx(db, m, in)
+		o.Added = append(o.Added, o.First...)
+	}
 	for k := 0; k < 2; k++ {
 		t += 7
 		var in []smp
